@@ -71,6 +71,7 @@ func globalRoot(v ssa.Value, depth int) *ssa.Global {
 }
 
 type writeScanner struct {
+	paramGlobal map[*ssa.Parameter]*ssa.Global // parameters that receive a value derived from a package-level variable
 	globals     []globalWrite
 	fieldPoints []*ssa.FieldAddr // fields written through pointers computed outside the scope
 	slicePoints []ssa.Value      // slices (computed outside the scope) whose elements are written
@@ -150,7 +151,7 @@ func (ws *writeScanner) scanIns(ins ssa.Instruction, inScope func(ssa.Instructio
 	keys := ws.keys
 	switch x := ins.(type) {
 	case *ssa.Store:
-		if g := globalRoot(x.Addr, 0); g != nil {
+		if g := ws.globalRootP(x.Addr); g != nil {
 			ws.globals = append(ws.globals, globalWrite{g, e.posOf(x.Pos()), ins.Parent()})
 		}
 		if ws.isFreshRoot(x.Addr, inScope, paramFresh, 0) {
@@ -221,7 +222,7 @@ func (ws *writeScanner) scanIns(ins ssa.Instruction, inScope func(ssa.Instructio
 			}
 		}
 	case *ssa.MapUpdate:
-		if g := globalRoot(x.Map, 0); g != nil {
+		if g := ws.globalRootP(x.Map); g != nil {
 			ws.globals = append(ws.globals, globalWrite{g, e.posOf(x.Pos()), ins.Parent()})
 		}
 		if ws.isFreshRoot(x.Map, inScope, paramFresh, 0) {
@@ -317,10 +318,52 @@ func (ws *writeScanner) scanIns(ins ssa.Instruction, inScope func(ssa.Instructio
 				if i < len(cc.Args) && ws.isFreshRoot(cc.Args[i], inScope, paramFresh, 0) {
 					pf[p] = true
 				}
+				if i < len(cc.Args) && ws.followAll {
+					if g := ws.globalRootP(cc.Args[i]); g != nil {
+						if ws.paramGlobal == nil {
+							ws.paramGlobal = map[*ssa.Parameter]*ssa.Global{}
+						}
+						if ws.paramGlobal[p] == nil {
+							ws.paramGlobal[p] = g
+							// re-scan the callee with the new fact
+							for k := range ws.seen {
+								if strings.HasPrefix(k, fmt.Sprintf("%p|", f)) {
+									delete(ws.seen, k)
+								}
+							}
+						}
+					}
+				}
 			}
 			ws.scanFn(f, pf)
 		}
 	}
+}
+
+// globalRootP is globalRoot extended through parameters known to carry global-derived values.
+func (ws *writeScanner) globalRootP(v ssa.Value) *ssa.Global {
+	for depth := 0; depth < 12; depth++ {
+		if g := globalRoot(v, 0); g != nil {
+			return g
+		}
+		switch x := v.(type) {
+		case *ssa.Parameter:
+			return ws.paramGlobal[x]
+		case *ssa.FieldAddr:
+			v = x.X
+		case *ssa.IndexAddr:
+			v = x.X
+		case *ssa.UnOp:
+			v = x.X
+		case *ssa.Slice:
+			v = x.X
+		case *ssa.ChangeType:
+			v = x.X
+		default:
+			return nil
+		}
+	}
+	return nil
 }
 
 func (ws *writeScanner) scanFn(fn *ssa.Function, paramFresh map[*ssa.Parameter]bool) {
